@@ -104,7 +104,15 @@ def run(repo, rep, tier):
     rep.check('measured', 'the modulus is set only from the parsed group message', ok, sp[0] if sp else sg, 'set_params source changed')
     gm = repo.func('kexdh', 'KexDH.get_dh_modulus_size')
     r = [x for x in walk_no_nested(gm) if isinstance(x, ast.Return)]
-    rep.check('measured', 'get_dh_modulus_size is the bit length of the stored modulus', len(r) == 1 and unparse(r[0].value) == 'len(bin(self.__p)) - 2', gm, 'get_dh_modulus_size changed')
+    rep.check('measured', 'get_dh_modulus_size is the bit length of the stored modulus', len(r) == 1 and unparse(r[0].value) in ('len(bin(self.__p)) - 2', 'self.__p.bit_length()'), gm, 'get_dh_modulus_size returns %s' % (unparse(r[0].value) if r else '?'))
+    # every NORMAL return of send_init_gex has passed set_params(g, p) with the freshly parsed group: a probe that got no
+    # group must leave through an exception, otherwise _send_init reads the modulus of the previous probe
+    csg = CFG(sg, exc_edges=False)
+    gates = csg.stmts_matching(lambda st: isinstance(st, ast.Expr) and 'set_params(g, p)' in unparse(st))
+    pth = csg.find_path([csg.entry], [csg.exit], avoid=gates)
+    rep.check('measured', 'send_init_gex returns normally only after setting the modulus from the group it just parsed', pth is None and bool(gates), sg,
+              'send_init_gex can return without a freshly parsed group (e.g. when the peer hangs up after the request): the key-exchange object keeps the previous probe\'s modulus and _send_init reports it as measured',
+              witness=describe_path(pth) if pth else None)
     spf = repo.func('kexdh', 'KexDH.set_params')
     rep.check('measured', 'set_params stores p', 'self.__p = p' in unparse(spf), spf, 'set_params changed')
 
